@@ -496,14 +496,14 @@ func histString(ops []Op) string {
 func TestCheck(t *testing.T) {
 	vlib.Main(t, &vlib.Check{
 		ID: "C24", Level: "model_checking",
-		Rule: "histories = every sequence of ≤ D ops (D=4 quick, 5 thorough) over {Schedule(1, every 1m), Schedule(2, every 2m offset 30s), Schedule(1, every 1m, last = now−3m [catch-up]), Release(1), Advance 60s, Advance 30s, Observe(+1s: When() vs model; +29s)} [thorough adds cron */2, Release(2), re-Schedule with another period] starting with a Schedule, on the real TreeScheduler with 2 workers inside a synctest bubble (real clock package on fake time); for each history every interleaving with ≤ B preemptions (B=1 quick, 2 thorough) of {history thread, scheduler main loop, workers, executor bodies}; oracle = reference list of due times per task (every N min on whole multiples, +offset), exactness/order/non-overlap of Execute calls, no run starting after Release returned, When() = earliest pending due time at quiescent instants, and a loop-iteration counter (hook) for busy waiting. states = decision nodes of the schedule trees, transitions = scheduling steps, traces = executions; non-trivial = executions in which ≥1 run was dispatched",
+		Rule: "histories = every sequence of ≤ D ops (D=4 quick, 5 thorough) over {Schedule(1, every 1m), Schedule(2, every 2m offset 30s), Schedule(1, every 1m, last = now−3m [catch-up]), Release(1), Advance 60s, Advance 30s, Observe(+1s: When() vs model; +29s)} [thorough adds cron */2, Release(2), re-Schedule with another period] starting with a Schedule, on the real TreeScheduler with 2 workers inside a synctest bubble (real clock package on fake time); for each history every interleaving with ≤ B preemptions (B=2 quick and thorough) of {history thread, scheduler main loop, workers, executor bodies}; oracle = reference list of due times per task (every N min on whole multiples, +offset), exactness/order/non-overlap of Execute calls, no run starting after Release returned, When() = earliest pending due time at quiescent instants, and a loop-iteration counter (hook) for busy waiting. states = decision nodes of the schedule trees, transitions = scheduling steps, traces = executions; non-trivial = executions in which ≥1 run was dispatched",
 		Assumptions: []string{
 			"fast executors only: a run that stays due because its worker is busy makes the loop poll by design; with fake time such polling can never end, so slow executors are outside this check",
 			"sequentially consistent interleavings at the granularity of the scheduler's mutex operations and hook points",
 		},
 		QuickBudgetS: 60, ThoroughBudgetS: 1200, WorkerEnv: []string{"GOMAXPROCS=1"},
 		Run: func(c *vlib.Ctx) {
-			depth, bound := 4, 1
+			depth, bound := 4, 2
 			if c.Thorough() {
 				depth, bound = 5, 2
 			}
